@@ -203,6 +203,20 @@ def prior_table(ix, R):
         fl = mkflow(ix, site)
         cps = calls(fl, 'compile_params')
         cps = [e for e in cps if isinstance(e.node.func, ast.Name)]
+        if len(cps) == 1 and cps[0].loops and len(cps[0].node.args) > 2 and isinstance(cps[0].node.args[2], ast.Name):
+            # one call in a loop over the components, the table threaded through a local: what the local is BEFORE the
+            # loop is the table the first pass consults and fills.  The user's own table handed over as it is (no copy)
+            # gets the defaults written into it - they are then found again, by name, at the next compile
+            tname = cps[0].node.args[2].id
+            pre = [e for e in fl.of('assign') if e.name == tname and not e.loops and
+                   fl.events.index(e) < fl.events.index(cps[0])]
+            if pre and not pre[-1].guards:
+                va = atom_of(fl, pre[-1].value)
+                if va is not None and va.head == 'attr' and va.args[0].startswith('self.') and va.args[0].count('.') == 1 and \
+                        attr_writers(ix, f.cls, va.args[0].split('.')[1]) <= {'set_prior', '__init__'}:
+                    R.fail('2.priors', 'EFF', site, stmt, 'the table of the first pass is %s itself, not a copy' % va.args[0],
+                           'compile_params(...) is handed %s (the user-set priors) as the table it fills: default priors '
+                           'are written into it and reused by name at later compiles' % va.args[0], f.loc(cps[0].node))
         if len(cps) != 2:
             raise AnalysisError('expected two compile_params(...) calls (model, observation)')
         first = cps[0]
